@@ -722,3 +722,123 @@ def stf_gather_contract(root=True):
                  requires=requires, ensures=ensures, setup=setup, region=_stf_gather_region, raises=lambda S, a, e: z3.BoolVal(False))
     c.region_name = "gathering the rewritten trees (%s)" % ("root" if root else "other ranks")
     return c
+
+
+# ------------------------------------------------------------ generic: gather / chain / bcast of parallel per-rank lists
+def parallel_gather_contract(qual, region, names, root=True, label=""):
+    """`names`: list of (variable, kind) with kind in 'fn' | 'label' | 'int'.  Every rank holds, for each variable, a list with CNT(rank)
+    entries E_var(rank, k) (the lists are parallel).  The region gathers them, joins them on the root and broadcasts them.  Afterwards every
+    rank holds, for each variable, the list with OFF(size) entries whose entry OFF(q) + k is E_var(q, k) -- rank order, all lists aligned."""
+    from pyvc import models_np2
+    from pyvc.models import SUMI, named_array, sum_unfold
+    tag = qual.replace(".", "_") + label
+    CNTF = z3.Function("cnt." + tag, I, I)
+    sorts = {"fn": Fn, "label": Label, "int": I}
+    wrap = {"fn": VFn, "label": VLabel, "int": VInt}
+    E = {n: z3.Function("E.%s.%s" % (tag, n), I, I, sorts[k]) for n, k in names}
+    G = {n: z3.Function("G.%s.%s" % (tag, n), I, sorts[k]) for n, k in names}
+    kind = dict(names)
+
+    def rows(eng, n):
+        return lambda q: _row(eng, CNTF(q), lambda k, q=q: wrap[kind[n]](E[n](q, k)))
+
+    def arr(eng):
+        k = z3.Int("k!ch")
+        return named_array(eng, z3.Lambda([k], CNTF(k)), "CHL", extra_triggers=False)
+
+    def m_gather(eng, st, args, kwargs, node):
+        n = st.ghost["coll"].get(id(node))
+        if n not in E:
+            raise Unsupported("%s gathers %r: no rank-indexed specification in the sidecar" % (qual, n))
+        same(eng, st, args[0], rows(eng, n)(R), "guarantee for gather(%s): the local list is the specified list of this rank" % n, z3.BoolVal(True), node)
+        return VMaybeNone(R != 0, st.alloc(HSeq(P, rows(eng, n))))
+
+    def m_bcast(eng, st, args, kwargs, node):
+        n = st.ghost["coll"].get(id(node))
+        if n not in E:
+            raise Unsupported("%s broadcasts %r: no specification in the sidecar" % (qual, n))
+        b = st.alloc(HSeq(SUMI(arr(eng), P), lambda p: wrap[kind[n]](G[n](p))))
+        same(eng, st, args[0], b, "guarantee for bcast(%s): on the root the list sent is the ranks' lists joined in rank order" % n, R == 0, node)
+        return b
+
+    def setup(eng, st, args):
+        models_np2.install(eng)
+        st.env["rank"], st.env["size"] = VInt(R), VInt(P)
+        eng.models["comm.gather"] = m_gather
+        eng.models["comm.bcast"] = m_bcast
+        st.ghost["coll"] = _collective_targets(eng.find_function(qual))
+        q, k = z3.Ints("q!ax k!ax")
+        A = arr(eng)
+        eng.axioms.append(z3.ForAll([q], CNTF(q) >= 0, patterns=[CNTF(q)]))
+        for n in E:
+            eng.axioms.append(z3.ForAll([q, k], z3.Implies(z3.And(0 <= q, q < P, 0 <= k, k < CNTF(q)), G[n](SUMI(A, q) + k) == E[n](q, k)), patterns=[E[n](q, k)]))
+        st.assume(R == 0 if root else R != 0)
+
+    def ensures(S, a, res):
+        A = arr(S.eng)
+        q, k = z3.Int(fresh_name("q!sk")), z3.Int(fresh_name("k!sk"))
+        rng = z3.And(0 <= q, q < P, 0 <= k, k < CNTF(q))
+        p = SUMI(A, q) + k
+        S.st.assume(sum_unfold(A, q, SUMI))
+        out = []
+        for n in E:
+            v = S.var(n)
+            if not isinstance(v, VRef):
+                out.append(("%s is a list on every rank" % n, z3.BoolVal(False)))
+                continue
+            o = S.seq(v)
+            e = o.get(p)
+            out.append(("%s has one entry per entry of any rank's list" % n, o.len == SUMI(A, P)))
+            out.append(("%s[OFF(q) + k] is entry k of rank q's list (rank order; all lists aligned)" % n, z3.Implies(rng, (e.t == E[n](q, k)) if hasattr(e, "t") else z3.BoolVal(False))))
+        return out
+
+    c = Contract(qual, {n: (lambda eng, st, n=n: rows(eng, n)(R)) for n in E}, requires=lambda S, a: [("0 <= rank < size", z3.And(0 <= R, R < P))],
+                 ensures=ensures, setup=setup, region=region, raises=lambda S, a, e: z3.BoolVal(False))
+    c.region_name = "gather / join / broadcast of the parallel lists %s (%s)" % ([n for n in E], "root" if root else "other ranks")
+    return c
+
+
+def _gather_regions(fnode, first_var):
+    """maximal runs of statements that start at `X = comm.gather(X, ...)` for X == first_var and end with the last following bcast"""
+    out = []
+
+    def scan(body):
+        for k, s in enumerate(body):
+            if isinstance(s, _ast.Assign) and isinstance(s.value, _ast.Call) and getattr(s.value.func, "attr", None) == "gather" and getattr(s.targets[0], "id", None) == first_var:
+                end = k
+                for m in range(k, len(body)):
+                    t = body[m]
+                    is_coll = isinstance(t, _ast.Assign) and isinstance(t.value, _ast.Call) and getattr(t.value.func, "attr", None) in ("gather", "bcast")
+                    is_root_if = isinstance(t, _ast.If) and isinstance(t.test, _ast.Compare) and getattr(t.test.left, "id", None) == "rank"
+                    if is_coll or is_root_if:
+                        end = m
+                    else:
+                        break
+                out.append(body[k:end + 1])
+            for ch in _ast.iter_child_nodes(s):
+                if isinstance(ch, (_ast.If, _ast.For, _ast.While, _ast.With, _ast.Try)):
+                    pass
+            for fld in ("body", "orelse", "finalbody"):
+                sub = getattr(s, fld, None)
+                if isinstance(sub, list) and sub and isinstance(sub[0], _ast.stmt):
+                    scan(sub)
+    scan(fnode.body)
+    return out
+
+
+def sympy_simplify_gather_contract(which, root=True):
+    names = [("change_indices", "int"), ("ref_indices", "int"), ("new_inv_subs", "label")]
+
+    def region(fnode):
+        rs = _gather_regions(fnode, "change_indices")
+        return rs[which] if which < len(rs) else None
+    return parallel_gather_contract("sympy_simplify", region, names, root, label=".%d" % which)
+
+
+def expand_or_factor_gather_contract(root=True):
+    names = [("change_vals", "fn"), ("change_idx", "int")]
+
+    def region(fnode):
+        rs = _gather_regions(fnode, "change_vals")
+        return rs[0] if rs else None
+    return parallel_gather_contract("expand_or_factor", region, names, root)
